@@ -48,9 +48,12 @@ def gen_graphs(ck):
     and descending dependency order), random beyond."""
     rng = ck.rng
     out = []
-    nmax = 3 if ck.tier == "quick" else 4
+    quick = ck.tier == "quick"
+    nmax = 3 if quick else 4
     for n in range(0, nmax + 1):
-        targets = list(range(1, n + 1)) + ([DANGLING] if n <= 3 else [])
+        # quick: the dangling target is included exhaustively up to 2 keys and sampled at 3
+        with_dangling = n <= (2 if quick else 3)
+        targets = list(range(1, n + 1)) + ([DANGLING] if with_dangling else [])
         subsets = []
         for r in range(len(targets) + 1):
             subsets.extend(itertools.combinations(targets, r))
@@ -58,7 +61,16 @@ def gen_graphs(ck):
             out.append(("exh%d" % n, [(k + 1, list(ds)) for k, ds in enumerate(combo)]))
             if n == 3 and any(len(ds) > 2 for ds in combo):
                 out.append(("exh%d-rev" % n, [(k + 1, list(reversed(ds))) for k, ds in enumerate(combo)]))
-    n_rand = 1200 if ck.tier == "quick" else 60000
+    if quick:
+        for _ in range(600):
+            items = []
+            for k in (1, 2, 3):
+                ds = [d for d in (1, 2, 3, DANGLING) if rng.random() < 0.5]
+                rng.shuffle(ds)
+                items.append((k, ds))
+            if any(DANGLING in ds for _, ds in items):
+                out.append(("exh3-dangling-sample", items))
+    n_rand = 1000 if ck.tier == "quick" else 60000
     for i in range(n_rand):
         n = rng.choice([4, 4, 5, 5, 5]) if i % 10 else rng.randrange(6, 41)
         keys = list(range(1, n + 1))
@@ -368,6 +380,7 @@ class Plan(object):
     field can be overridden to switch one feature off again)."""
 
     PFX_POOL = ["tns", "t0", "t1", "q", "impl", "typ", "m", "ns", "a", "b-c", "x_1", "my.ns", "ns1", "ns2", "p"]
+    ENABLE_DECL_ON_USE = False      # set by run_render when PROPOSED_D is a listed finding
 
     def __init__(self, rng, iface, baseline=False):
         from . import family as F
@@ -390,6 +403,7 @@ class Plan(object):
             self.local_wsdl_decl = False
             self.wsdl_default_tns = False
             self.efd_flip = {}
+            self.decl_on_use = False
             self.seed = 0
             return
         self.seed = rng.randrange(1 << 30)
@@ -441,6 +455,7 @@ class Plan(object):
         self.wsdl_shuffle = r() < 0.7
         self.local_wsdl_decl = r() < 0.3    # prefixes declared on message/portType/binding/service
         self.wsdl_default_tns = r() < 0.2   # unprefixed WSDL references under xmlns="<tns>"
+        self.decl_on_use = self.ENABLE_DECL_ON_USE and r() < 0.15
 
     def features(self):
         f = set()
@@ -456,6 +471,8 @@ class Plan(object):
             f.add("split-blocks")
         if self.efd_flip:
             f.add("mixed-elementFormDefault")
+        if self.decl_on_use:
+            f.add("prefix-declared-on-port-or-input")
         if self.shuffle:
             f.add("declaration-order")
         if self.wsdl_shuffle:
@@ -753,7 +770,12 @@ def render(iface, plan):
         msgs.append('  <%smessage name="%sIn"%s>%s</%smessage>' % (W, op.name, here(), inparts, W))
         msgs.append('  <%smessage name="%sOut"%s>%s</%smessage>' % (W, op.name, here(), outparts, W))
         style = "rpc" if op.style == "rpc" else "document"
-        io = ['<%sinput message="%s"/>' % (W, wref(op.name + "In")), '<%soutput message="%s"/>' % (W, wref(op.name + "Out"))]
+        if plan.decl_on_use:
+            io = ['<%sinput xmlns:u_="%s" message="u_:%sIn"/>' % (W, tns, op.name),
+                  '<%soutput xmlns:u_="%s" message="u_:%sOut"/>' % (W, tns, op.name)]
+        else:
+            io = ['<%sinput message="%s"/>' % (W, wref(op.name + "In")),
+                  '<%soutput message="%s"/>' % (W, wref(op.name + "Out"))]
         pt.setdefault(style, []).append('    <%soperation name="%s">%s</%soperation>' % (W, op.name, "".join(io), W))
         if style == "rpc":
             body = '<%sbody use="literal" namespace="%s"/>' % (SP, S.namespaces[op.body_ns][0])
@@ -775,8 +797,12 @@ def render(iface, plan):
         pieces.append('  <%sbinding name="b_%s" type="%s"%s>\n'
                       '    <%sbinding style="%s" transport="http://schemas.xmlsoap.org/soap/http"/>\n%s\n'
                       '  </%sbinding>' % (W, style, wref("pt_" + style), here(), SP, style, "\n".join(ops_bd), W))
-        ports.append('    <%sport name="port_%s" binding="%s"><%saddress location="http://unused.invalid/%s"/></%sport>'
-                     % (W, style, wref("b_" + style), SP, style, W))
+        if plan.decl_on_use:
+            ports.append('    <%sport name="port_%s" xmlns:u_="%s" binding="u_:b_%s"><%saddress '
+                         'location="http://unused.invalid/%s"/></%sport>' % (W, style, tns, style, SP, style, W))
+        else:
+            ports.append('    <%sport name="port_%s" binding="%s"><%saddress location="http://unused.invalid/%s"/></%sport>'
+                         % (W, style, wref("b_" + style), SP, style, W))
     pieces.append('  <%sservice name="svc"%s>\n%s\n  </%sservice>' % (W, here(), "\n".join(ports), W))
     types = "  <%stypes>\n%s\n  </%stypes>" % (W, "\n".join(texts), W)
     if plan.wsdl_shuffle:
@@ -1185,6 +1211,10 @@ PRE_R = "From SV Require Import Lib.Base Fam.Schema C01.Marshal C01.Guard C01.St
 KNOWN_A = "C07:split-block-global-element-not-top-level"
 KNOWN_B = "C07:xsi-prefix-bound-to-other-namespace"
 KNOWN_C = "C07:same-namespace-blocks-elementFormDefault"
+# proposed (generated only once the key is listed in the known-findings file): a prefix declared on the very
+# wsdl:port / wsdl:input / wsdl:output element whose binding= / message= uses it is not found, because the
+# reference is resolved against the enclosing service / portType element
+PROPOSED_D = "C07:prefix-declared-on-referencing-wsdl-element"
 
 
 def toggles(plan, iface):
@@ -1201,6 +1231,9 @@ def toggles(plan, iface):
     if plan.efd_flip:
         out.append((KNOWN_C, "blocks of one namespace with different elementFormDefault",
                     lambda q: setattr(q, "efd_flip", {})))
+    if plan.decl_on_use:
+        out.append((PROPOSED_D, "a prefix declared on the wsdl:port / wsdl:input element that uses it",
+                    lambda q: setattr(q, "decl_on_use", False)))
     if "xsi" in plan.prefixes:
         out.append((KNOWN_B, "a target namespace spelled with the prefix xsi",
                     lambda q: setattr(q, "prefixes", [x if x != "xsi" else "tns9" for x in q.prefixes])))
@@ -1251,7 +1284,7 @@ def attribute(iface, plan, observe, expected):
             got = ("harness", repr(e))
         return got == expected
     cands = toggles(plan, iface)
-    known = [c for c in cands if c[0] in (KNOWN_A, KNOWN_B, KNOWN_C)]
+    known = [c for c in cands if c[0] in (KNOWN_A, KNOWN_B, KNOWN_C, PROPOSED_D)]
     # known classes (alone, then together) before any generic feature: switching a generic
     # feature off (e.g. "one block per namespace") also removes the known quirks
     for group in (known, cands):
@@ -1329,6 +1362,7 @@ def run_render(ck, unproved):
     from . import family as F
     from . import sudsutil as U  # noqa
     rng = ck.rng
+    Plan.ENABLE_DECL_ON_USE = PROPOSED_D in ck.known
     n_ifaces = 36 if ck.tier == "quick" else 400
     K = 4 if ck.tier == "quick" else 6
     reps = 2 if ck.tier == "quick" else 4
@@ -1641,8 +1675,9 @@ def run(ck):
         run_render(ck, unproved)
     t3 = time.time()
     ck.extra["wall_by_part_s"] = {"depsort": round(t1 - t0, 1), "qualify": round(t2 - t1, 1), "render": round(t3 - t2, 1)}
-    ck.rule = ("(1) every digraph with <= 3 keys over {keys + one dangling target} (dict order 1..n, dependency lists "
-               "ascending, plus reversed lists for the dense ones) and random digraphs of 4-5 keys (dense) and 6-40 keys "
+    ck.rule = ("(1) every digraph with <= 3 keys (dict order 1..n, dependency lists ascending, plus reversed lists for the "
+               "dense ones; one extra dangling target exhaustively up to 2 keys and sampled at 3 [thorough: exhaustively "
+               "at 3]) and random digraphs of 4-5 keys (dense) and 6-40 keys "
                "with shuffled insertion order, dangling and repeated dependencies [thorough: every digraph with 4 keys]; "
                "(2) random documents of nesting depth 1-4 with prefix (re)declarations and default namespaces, a "
                "reference in the innermost element, resolved through SchemaObject.qualify / wsdl.Part / qualify and "
